@@ -79,16 +79,32 @@ def defaults_spelled_out(files):
     return [(d, fix(r)) for d, r in files]
 
 
+def _ir_sweep_stream(ctx: Ctx, n: int):
+    """further random specifications for the structural tie alone (no values unless the emitted text differs from the model)"""
+    for case in gencheck.spec_stream(ctx, n, catalogue=False):
+        case.flags["ir_only"] = True
+        case.tag = "ir-" + case.tag
+        yield case
+
+
 def run_c02(ctx: Ctx):
+    import itertools
+    import os
     rng = ctx.rng
-    n_obj = n_spec = 0
-    for case in gencheck.spec_stream(ctx, nspec(ctx, "C02")):
+    n_obj = n_spec = n_ir = 0
+    n_sweep = int(os.environ.get("VERIF_IR_SWEEP", "2500" if ctx.tier == "thorough" else "160"))
+    for case in itertools.chain(gencheck.spec_stream(ctx, nspec(ctx, "C02")), _ir_sweep_stream(ctx, n_sweep)):
         try:
             st = open_case(ctx, case, "C02")
             if st is False:
                 return
             if st is None:
                 continue
+            if case.flags.get("ir_only"):
+                # the structural tie alone: emitted text against compile's instruction lists; values only where they differ
+                n_ir += 1
+                if not getattr(case, "ir_differs", None):
+                    continue
             n_spec += 1
             # metamorphic twin: boolean defaults spelled out -> byte-identical serialisations
             twin = Case(defaults_spelled_out(case.files), case.tag + "-explicit-defaults", case.flags)
@@ -184,6 +200,11 @@ def run_c02(ctx: Ctx):
             close_case(case)
     ctx.part("specifications x classes x constructible objects x both modes (three-way: real, model, XML reading)", n_obj, False,
              f"{n_spec} accepted specifications")
+    hd = ctx.hist
+    ctx.part("structural tie: emitted serialize / deserialize / __init__ / enum modules / packet ids against compile's instruction lists",
+             hd.get("ir_tie.classes_equal", 0) + hd.get("ir_tie.classes_differing", 0) + hd.get("ir_tie.classes_unrecognised", 0), False,
+             f"{n_ir} further specifications compared structurally only; classes equal {hd.get('ir_tie.classes_equal', 0)}, differing "
+             f"{hd.get('ir_tie.classes_differing', 0)}, unrecognised {hd.get('ir_tie.classes_unrecognised', 0)}")
 
 
 def _py(n):
